@@ -282,16 +282,19 @@ def gen_case(rng, tier, i):
     return case
 
 
+LARGE_KINDS = [
+    # (name, V, order)
+    ("big_bigram_fits_int16", 200, 2), ("big_bigram_potential_32768", 200, 2),
+    ("big_bigram_actual_gt_32767", 200, 2), ("big_trigram_gt_32767", 36, 3),
+    ("wide_vocab_int16_ids", 300, 2), ("big_bigram_potential_256", 200, 2),
+    ("big_bigram_actual_gt_255", 120, 2), ("big_trigram_mid_32767", 40, 3),
+]
+
+
 def gen_large(rng, j):
     """Large-table cases of the thorough tier: level sizes cross 255 / 32767 entries so that
     the offset (and id) buffers are built with and shrunk to different integer widths."""
-    kinds = [
-        # (name, V, N, level-size rule)
-        ("big_bigram_fits_int16", 200, 2), ("big_bigram_potential_32768", 200, 2),
-        ("big_bigram_actual_gt_32767", 200, 2), ("big_trigram_gt_32767", 36, 3),
-        ("wide_vocab_int16_ids", 300, 2), ("big_bigram_potential_256", 200, 2),
-        ("big_bigram_actual_gt_255", 120, 2), ("big_trigram_mid_32767", 40, 3),
-    ]
+    kinds = LARGE_KINDS
     name, V, N = kinds[j % len(kinds)]
     kind = SOS_KINDS[(j // len(kinds)) % len(SOS_KINDS)]
     sos = pick_sos(rng, V, kind)
